@@ -151,6 +151,10 @@ class Registry:
     def lemma(self, name, **kw):
         self.lemmas[name] = kw
 
+    def dominance(self, name, **kw):
+        """control-flow placement obligations decided on the AST (engine/dominance.py); qual "dominance::<name>" """
+        self.__dict__.setdefault("dominances", {})[name] = kw
+
     def after_load(self, fn):
         """run fn(registry) once ALL sidecar files are loaded (sidecars load in alphabetical order; a file that refines
         a contract declared by a later file registers the refinement here)"""
